@@ -8,7 +8,8 @@ package throttler
 //  B. Delay(ctx): table entries and contexts chosen with a >= 1 s gap between the
 //     two racing events, so that the winner of the select is not timing-sensitive.
 //     Only the outcome class (nil / context error) is diffed; measured durations are
-//     checked against upper bounds with 1.5 s slack by the oracle, never diffed.
+//     checked against upper bounds with 5 s slack by the oracle, never diffed; a case whose two
+//     racing events are less than 500 ms apart is not judged or diffed at all (either outcome is fine).
 //  C. idle reset with a real timer: measured monotonic times are sent to the model
 //     (touch time = time measured BEFORE the call, so the model's deadline is never
 //     later than the real one); the observed reset is sent as a `fire <t>` step the
@@ -195,7 +196,8 @@ func TestVerifC36(t *testing.T) {
 	reps := vfScale(2, 60)
 	var mu sync.Mutex
 	var wg sync.WaitGroup
-	tol := 1500 * time.Millisecond
+	tol := 5 * time.Second // upper bounds only; generous because the machine may be heavily loaded
+	const raceMargin = 500 * time.Millisecond
 	for rp := 0; rp < reps; rp++ {
 		for _, c := range casesB {
 			wg.Add(1)
@@ -256,6 +258,20 @@ func TestVerifC36(t *testing.T) {
 					nominal = d
 				}
 				replay := map[string]interface{}{"delays": c36TableTok(tableB), "level": c.level, "ctx": c.ctxKind, "elapsed_ns": int64(el), "err": fmt.Sprint(err)}
+				// The two racing events (the delay's timer, the context's end) must be far apart for the
+				// outcome to be determined: on a loaded machine two events tens of milliseconds apart
+				// are effectively simultaneous, and select may then take either (SelectSem leaves a tie
+				// open). Closer than raceMargin: accept either outcome, count it, judge and diff nothing.
+				if d != 0 && ctxLeft >= 0 {
+					gap := d - ctxLeft
+					if gap < 0 {
+						gap = -gap
+					}
+					if gap < raceMargin {
+						rep.Count("B:either-outcome-accepted(events-closer-than-500ms):" + c.ctxKind)
+						return
+					}
+				}
 				if el > d+tol {
 					rep.Fail("delay-longer-than-current-delay", fmt.Sprintf("Delay at level %d (%v) ctx=%s blocked %v", c.level, d, c.ctxKind, el), replay)
 				}
